@@ -35,12 +35,13 @@ type engCase struct {
 	Trigger    string // "manual" | "msg"
 	StartFlow  int
 	Resumes    []string // "msg:<text>" | "timeout" | "expiration" | "dial:<status>"
+	Refresh    []string // per resume (C02): "" | "env" | "contact" | "both" - what the resume carries besides its payload
 	Seed       int64
 }
 
 func (ec *engCase) describe() map[string]any {
 	return map[string]any{"assets": json.RawMessage(ec.GA.JSON(ec.Voice)), "max_steps": ec.MaxSteps, "max_resumes": ec.MaxResumes, "trigger": ec.Trigger,
-		"start_flow": ec.StartFlow, "resumes": ec.Resumes, "seed": ec.Seed, "voice": ec.Voice, "model_assets": ec.GA.ModelSpec(nil)}
+		"start_flow": ec.StartFlow, "resumes": ec.Resumes, "refresh": ec.Refresh, "seed": ec.Seed, "voice": ec.Voice, "model_assets": ec.GA.ModelSpec(nil)}
 }
 
 type canonStep struct {
@@ -519,6 +520,33 @@ func (er *engRun) makeResume(spec string) flows.Resume {
 		return resumes.NewRunExpiration(nil, nil)
 	case strings.HasPrefix(spec, "dial:"):
 		return resumes.NewDial(nil, nil, flows.NewDial(flows.DialStatus(spec[5:]), 5))
+	}
+	panic("bad resume spec " + spec)
+}
+
+// makeResumeWith builds the resume with the refreshed environment and/or contact the host may attach to it
+func (er *engRun) makeResumeWith(spec, refresh string) flows.Resume {
+	var env envs.Environment
+	var contact *flows.Contact
+	if refresh == "env" || refresh == "both" {
+		tz, _ := time.LoadLocation("Africa/Kigali")
+		env = envs.NewBuilder().WithDateFormat(envs.DateFormatDayMonthYear).WithTimeFormat(envs.TimeFormatHourMinuteAmPm).WithTimezone(tz).
+			WithAllowedLanguages("fra", "eng").WithDefaultCountry("RW").Build()
+	}
+	if refresh == "contact" || refresh == "both" {
+		contact = er.Session.Contact().Clone()
+		contact.SetName("Refreshed " + contact.Name())
+		contact.SetLanguage("fra")
+	}
+	switch {
+	case strings.HasPrefix(spec, "msg:"):
+		return resumes.NewMsg(env, contact, er.msgIn(spec[4:]))
+	case spec == "timeout":
+		return resumes.NewWaitTimeout(env, contact)
+	case spec == "expiration":
+		return resumes.NewRunExpiration(env, contact)
+	case strings.HasPrefix(spec, "dial:"):
+		return resumes.NewDial(env, contact, flows.NewDial(flows.DialStatus(spec[5:]), 5))
 	}
 	panic("bad resume spec " + spec)
 }
